@@ -115,7 +115,7 @@ def gen_doc(rng, depth=0):
 
 
 # keys whose NFKD form is themselves (the model takes NFKD as a parameter)
-KEYCH = [c for c in "'\"\\$`!&|;<>(){}[]*?~#=%\n\t -^,.:/@+_aZ09"] + ["\u4e2d", "\U0001F600", "\x7f", "\x01"]
+KEYCH = [c for c in "'\"\\$`!&|;<>(){}[]*?~#=%\n\t -^,.:/@+_aZ09"] + ["\u4e2d", "\U0001F600", "\x7f", "\x01", "\u0663", "\u0969", "\u0416"]   # incl. digits / letters of other scripts (not valid in a shell name)
 
 
 def coq_svnode(doc):
